@@ -7,3 +7,7 @@ def run(ctx, rep):
     alloc.rule_O7_bound_before_bump(mod, rep)
     alloc.rule_who_writes_counters(mod, rep)
     layout.rule_work_layout(mod, rep)
+    from ..rules import more
+    more.rule_super_bnd_arg(mod, rep)
+    more.rule_lsub_request(mod, rep)
+    more.rule_preset_joined(mod, rep)
